@@ -44,3 +44,11 @@ package runs
 //@   records gotText(r, languages, uuid, key, native, result0, result1)
 //@ loop 1
 //@   invariant forall k int :: 0 <= k && k <= $i ==> !qualifies(r, languages[k], uuid, key)
+
+// ---- C07 / C20: history token for saved results (argument values as passed, before truncation)
+//@ pure resultSaved(r *run, name string, value string, category string, input string, node flows.NodeUUID) bool
+
+//@ func (r *run) SaveResult
+//@   trusted
+//@   assigns computed
+//@   records resultSaved(r, old(result.Name), old(result.Value), old(result.Category), old(result.Input), old(result.NodeUUID))
